@@ -393,6 +393,11 @@ freedata(void)
 	}
 	rcptcount = 0;
 	goodrcpt = 0;
+	/* The transaction is gone. If the state machine is still inside of it
+	 * (e.g. after a failed DATA or HELO) fall back to the state directly after
+	 * HELO or EHLO, otherwise RCPT TO would be accepted without a sender. */
+	if (comstate > 0x0010)
+		comstate = (0x008 << xmitstat.esmtp);
 }
 
 /**
